@@ -267,7 +267,11 @@ def call(method, path, body=None, version="1.39", token="admin", roles=None,
     if headers:
         h.update(headers)
     req = webob.Request.blank(path, method=method, headers=h, **kw)
-    return Response(req.get_response(app or APP))
+    r = Response(req.get_response(app or APP))
+    # whether the request's Accept header admits JSON (the error-body clause
+    # of C15 is conditional on it)
+    r.accepts_json = bool(req.accept.acceptable_offers(['application/json']))
+    return r
 
 
 # --------------------------------------------------------------------------
